@@ -553,6 +553,10 @@ func (handler *Handler) handleStatementExecute(ctx context.Context, packet *Pack
 		preparedStmt := stmtItem.Statement()
 		paramsNumber = preparedStmt.ParamsNum()
 		statement = preparedStmt.Query()
+		// the result set that follows belongs to this statement, not to the one analysed last
+		if clientSession := base.ClientSessionFromContext(ctx); clientSession != nil {
+			encryptor.SaveQueryDataItemsToClientSession(clientSession, stmtItem.QuerySettings())
+		}
 	}
 
 	// Values of parameters sent beforehand with COM_STMT_SEND_LONG_DATA are absent from the execute packet,
@@ -951,7 +955,14 @@ func (handler *Handler) PreparedStatementResponseHandler(ctx context.Context, pa
 	}
 
 	preparedStmt := NewPreparedStatement(response.StatementID, response.ParamsNum, queryObj.Query(), statement)
-	handler.registry.AddStatement(NewPreparedStatementItem(preparedStmt, nil))
+	// keep the column settings collected while this statement was analysed (only SELECT collects them)
+	var querySelectSettings []*encryptor.QueryDataItem
+	if _, isSelect := statement.(*sqlparser.Select); isSelect {
+		if clientSession := base.ClientSessionFromContext(ctx); clientSession != nil {
+			querySelectSettings = encryptor.QueryDataItemsFromClientSession(clientSession)
+		}
+	}
+	handler.registry.AddStatement(NewPreparedStatementItem(preparedStmt, querySelectSettings))
 
 	// proxy output
 	handler.logger.Debugln("PreparedStatementResponseHandler.Proxy output")
